@@ -341,6 +341,196 @@ Proof.
   - apply (Hrun TFail); [reflexivity|discriminate].
 Qed.
 
+Lemma phase_eqb_refl p : phase_eqb p p = true. Proof. destruct p; reflexivity. Qed.
+Lemma stepk_eqb_refl k : stepk_eqb k k = true. Proof. destruct k; reflexivity. Qed.
+Lemma phase_eqb_eq a b : phase_eqb a b = true -> a = b. Proof. destruct a, b; cbn; congruence. Qed.
+Lemma stepk_eqb_eq a b : stepk_eqb a b = true -> a = b. Proof. destruct a, b; cbn; congruence. Qed.
+(** * no step is skipped *)
+Lemma nss_app : forall l1 l2 seen, nss_from seen (l1 ++ l2) = nss_from seen l1 && nss_from (rev l1 ++ seen) l2.
+Proof.
+  induction l1 as [|e l1 IH]; intros l2 seen; [reflexivity|]. cbn [app nss_from rev]. rewrite IH, <- app_assoc, andb_assoc. reflexivity.
+Qed.
+Lemma nss_prefix l1 l2 seen : nss_from seen (l1 ++ l2) = true -> nss_from seen l1 = true.
+Proof. rewrite nss_app. intros H. apply andb_true_iff in H. apply H. Qed.
+
+Lemma tuf_prefix (l : list item) : exists r, l = tuf l ++ r.
+Proof.
+  induction l as [|[e [f|]] l IH]; [exists []; reflexivity|exists l; reflexivity|].
+  destruct IH as (r & E). exists r. cbn [tuf snd app]. rewrite <- E. reflexivity.
+Qed.
+
+Lemma is_step_refl p k i pv : is_step p k i (EInstr p k i pv) = true.
+Proof. cbn. rewrite phase_eqb_refl, stepk_eqb_refl, Nat.eqb_refl. reflexivity. Qed.
+
+Lemma in_sched_list_events p k prev : forall (l : list instr) s j,
+  s <= j < s + length l -> In (EInstr p k j prev) (map fst (sched_list p k prev s l)).
+Proof.
+  induction l as [|i l IH]; intros s j H; cbn [length] in H; [lia|]. cbn [sched_list map fst].
+  destruct (Nat.eq_dec j s) as [->|Hne]; [left; reflexivity|]. right. apply IH. lia.
+Qed.
+
+(** one block of the plan: fine if what it demands has been seen for all its indices *)
+Lemma nss_sched_list p k prev : forall (l : list instr) s seen,
+  (forall k' j, In k' (required_before p k) -> s <= j < s + length l -> existsb (is_step p k' j) seen = true) ->
+  nss_from seen (map fst (sched_list p k prev s l)) = true.
+Proof.
+  induction l as [|i l IH]; intros s seen H; [reflexivity|]. cbn [sched_list map fst nss_from length] in *.
+  apply andb_true_iff. split.
+  - apply forallb_forall. intros k' Hk'. apply H; [exact Hk'|lia].
+  - apply IH. intros k' j Hk' Hj. cbn [existsb]. rewrite (H k' j Hk') by lia. apply orb_true_r.
+Qed.
+
+(** the plan as a list of steps ([None]: the sandbox marker); what a step demands must be among the
+    steps done before it *)
+Definition sevs (tc : testcase) (s : option (phase * stepk)) : list event :=
+  match s with None => [ESandbox] | Some pk => map fst (sched_step tc pk) end.
+Definition step_done (done : list (phase * stepk)) (p : phase) (k : stepk) : bool :=
+  existsb (fun s => phase_eqb (fst s) p && stepk_eqb (snd s) k) done.
+Fixpoint check_steps (done : list (phase * stepk)) (ss : list (option (phase * stepk))) : bool :=
+  match ss with
+  | [] => true
+  | None :: ss' => check_steps done ss'
+  | Some (p, k) :: ss' => forallb (step_done done p) (required_before p k) && check_steps ((p, k) :: done) ss'
+  end.
+Definition seen_inv (tc : testcase) (done : list (phase * stepk)) (seen : list event) : Prop :=
+  forall p k j, step_done done p k = true -> j < length (instrs_of tc p) -> existsb (is_step p k j) seen = true.
+
+Lemma existsb_app_r {X} (f : X -> bool) a b : existsb f b = true -> existsb f (a ++ b) = true.
+Proof. intros H. rewrite existsb_app, H. apply orb_true_r. Qed.
+
+Lemma nss_steps tc : forall ss done seen,
+  check_steps done ss = true -> seen_inv tc done seen ->
+  nss_from seen (flat_map (sevs tc) ss) = true /\ 
+  seen_inv tc (rev (flat_map (fun s => match s with Some pk => [pk] | None => [] end) ss) ++ done)
+              (rev (flat_map (sevs tc) ss) ++ seen).
+Proof.
+  induction ss as [|[[p k]|] ss IH]; intros done seen Hc Hinv; cbn [check_steps flat_map] in *.
+  - split; [reflexivity|exact Hinv].
+  - apply andb_true_iff in Hc as [Hreq Hc]. rewrite nss_app.
+    assert (Hinv' : seen_inv tc ((p, k) :: done) (rev (sevs tc (Some (p, k))) ++ seen)).
+    { intros p' k' j Hd Hj. cbn [step_done existsb fst snd] in Hd. apply orb_true_iff in Hd as [Hd|Hd].
+      - apply andb_true_iff in Hd as [H1 H2]. apply phase_eqb_eq in H1. apply stepk_eqb_eq in H2. subst p' k'.
+        rewrite existsb_app. apply orb_true_iff. left. apply existsb_exists.
+        exists (EInstr p k j None). split; [|apply is_step_refl]. apply in_rev. rewrite rev_involutive.
+        cbn [sevs]. unfold sched_step. cbn [fst snd]. apply in_sched_list_events. lia.
+      - apply existsb_app_r, Hinv; assumption. }
+    destruct (IH _ _ Hc Hinv') as [H1 H2]. split.
+    + apply andb_true_iff. split; [|exact H1]. cbn [sevs]. unfold sched_step. cbn [fst snd].
+      apply nss_sched_list. intros k' j Hk' Hj. apply Hinv; [|lia].
+      rewrite forallb_forall in Hreq. apply Hreq, Hk'.
+    + rewrite !rev_app_distr, <- !app_assoc. cbn [rev app]. exact H2.
+  - rewrite nss_app. cbn [sevs nss_from andb rev app].
+    assert (Hinv' : seen_inv tc done (ESandbox :: seen)).
+    { intros p' k' j Hd Hj. cbn [existsb is_step]. apply Hinv; assumption. }
+    destruct (IH _ _ Hc Hinv') as [H1 H2]. split; [exact H1|].
+    rewrite <- ?app_assoc. cbn [app]. exact H2.
+Qed.
+
+Definition plan_full (act_only : bool) : list (option (phase * stepk)) :=
+  Some (Conf, SMain) :: map Some block_validate ++ None ::
+  map Some (block_setup ++ block_act ++ if act_only then [] else [(BeforeAssert, SMain); (Assert, SMain)]).
+
+Lemma flat_map_map_some tc ss : flat_map (sevs tc) (map Some ss) = map fst (sched_steps tc ss).
+Proof.
+  induction ss as [|s ss IH]; [reflexivity|]. cbn [map flat_map sevs sched_steps]. rewrite IH. unfold sched_steps.
+  rewrite map_app. reflexivity.
+Qed.
+
+Lemma full_plan_events tc :
+  map fst (sched_step tc (Conf, SMain) ++ schedule tc) = flat_map (sevs tc) (plan_full (tc_act_only tc)).
+Proof.
+  unfold plan_full, schedule. cbn [flat_map]. rewrite flat_map_app. cbn [flat_map sevs].
+  rewrite !flat_map_map_some, !map_app. cbn [map fst]. f_equal. f_equal. f_equal.
+  unfold sched_steps. rewrite !flat_map_app, !map_app. f_equal. f_equal.
+  destruct (tc_act_only tc); [reflexivity|]. cbn [flat_map]. rewrite app_nil_r. reflexivity.
+Qed.
+
+(** the whole, uncut plan skips nothing; hence none of its prefixes does *)
+Lemma full_plan_nss tc :
+  nss_from [] (map fst (sched_step tc (Conf, SMain) ++ schedule tc)) = true /\
+  seen_inv tc (rev (flat_map (fun s => match s with Some pk => [pk] | None => [] end) (plan_full (tc_act_only tc))) ++ [])
+           (rev (map fst (sched_step tc (Conf, SMain) ++ schedule tc)) ++ []).
+Proof.
+  rewrite full_plan_events. apply nss_steps.
+  - destruct (tc_act_only tc); reflexivity.
+  - intros p k j Hd. discriminate Hd.
+Qed.
+
+Lemma nss_tuf seen (l : list item) : nss_from seen (map fst l) = true -> nss_from seen (map fst (tuf l)) = true.
+Proof. intros H. destruct (tuf_prefix l) as (r & E). rewrite E, map_app in H. apply nss_prefix in H. exact H. Qed.
+
+(** after the validation block everything it contains has been seen *)
+Lemma validated_seen tc :
+  seen_inv tc (rev block_validate ++ [(Conf, SMain)])
+           (rev (map fst (sched_step tc (Conf, SMain) ++ sched_steps tc block_validate))).
+Proof.
+  destruct (nss_steps tc (Some (Conf, SMain) :: map Some block_validate) [] []) as [_ H].
+  - reflexivity.
+  - intros p k j Hd. discriminate Hd.
+  - cbn [flat_map] in H. rewrite flat_map_map_some in H. rewrite !app_nil_r in H.
+    rewrite map_app. cbn [sevs] in H. exact H.
+Qed.
+
+Lemma partial_nss tc :
+  ffail (sched_step tc (Conf, SMain)) = None ->
+  nss_from [] (filter observable (map fst (sched_step tc (Conf, SMain)) ++ fst (spec_partial tc))) = true.
+Proof.
+  intros E0. set (c := sched_step tc (Conf, SMain)) in *.
+  destruct (full_plan_nss tc) as [HP _]. fold c in HP.
+  assert (Hpre : forall l r, map fst (c ++ schedule tc) = l ++ r -> nss_from [] l = true).
+  { intros l r E. apply (nss_prefix l r). rewrite <- E. exact HP. }
+  assert (Hm : forall it, In it (c ++ tuf (schedule tc)) -> main_event (fst it) = true).
+  { intros it Hin. apply in_app_or in Hin as [Hin|Hin]; [apply (conf_main tc), Hin|eapply schedule_main, tuf_incl, Hin]. }
+  destruct (tuf_prefix (schedule tc)) as (r & Er).
+  assert (Hcut : nss_from [] (map fst (c ++ tuf (schedule tc))) = true).
+  { apply (Hpre _ (map fst r)). rewrite <- map_app, <- app_assoc, <- Er. reflexivity. }
+  unfold spec_partial.
+  assert (Hcl : forall pv,
+            (match ffail (schedule tc) with Some f => in_validation f = false | None => True end) ->
+            nss_from [] (filter observable (map fst c ++ map fst (tuf (schedule tc)) ++ map fst (tuf (sched_cleanup tc pv)))) = true).
+  { intros pv Hnv.
+    assert (EV : ffail (sched_steps tc block_validate) = None).
+    { destruct (ffail (sched_steps tc block_validate)) as [f'|] eqn:EV; [|reflexivity]. exfalso.
+      assert (Hf : ffail (schedule tc) = Some f') by (unfold schedule; rewrite ffail_app, EV; reflexivity).
+      rewrite Hf in Hnv. apply ffail_sched_steps in EV. unfold in_validation in Hnv. cbn in EV.
+      repeat (destruct EV as [EV|EV]; [injection EV as _ EV; rewrite <- EV in Hnv; discriminate Hnv|]). contradiction. }
+    match goal with |- nss_from [] ?x = true =>
+      assert (Hobs : x = map fst (c ++ tuf (schedule tc)) ++ map fst (tuf (cl_items tc (Some pv)))) end.
+    { rewrite app_assoc, filter_app. f_equal; [|apply observable_cleanup]. rewrite <- map_app. apply (observable_main _ Hm). }
+    rewrite Hobs, nss_app, Hcut. cbn [andb].
+    apply nss_tuf. cbn [cl_items].
+    apply nss_sched_list. intros k' j Hk' Hj. rewrite app_nil_r.
+    assert (Esplit : tuf (schedule tc) = sched_steps tc block_validate ++ tuf ((ESandbox, None) :: sched_steps tc block_setup ++ sched_steps tc block_act ++
+              (if tc_act_only tc then [] else sched_step tc (BeforeAssert, SMain) ++ sched_step tc (Assert, SMain)))).
+    { unfold schedule. rewrite tuf_app, EV. reflexivity. }
+    rewrite Esplit, app_assoc, map_app, rev_app_distr. apply existsb_app_r.
+    apply (validated_seen tc); [|cbn [instrs_of]; lia].
+    cbn in Hk'. destruct Hk' as [<-|[<-|[]]]; reflexivity. }
+  destruct (ffail (schedule tc)) as [f|] eqn:Ef.
+  - destruct (in_validation f) eqn:Ev; cbn [fst].
+    + match goal with |- nss_from [] ?x = true => assert (Hobs : x = map fst (c ++ tuf (schedule tc))) end.
+      { rewrite <- map_app. apply (observable_main _ Hm). }
+      rewrite Hobs. exact Hcut.
+    + apply Hcl. reflexivity.
+  - cbn [fst]. apply Hcl. exact I.
+Qed.
+
+Theorem model_no_step_skipped tc : no_step_skipped (filter observable (fst (full_execute tc))) = true.
+Proof.
+  unfold no_step_skipped. set (c := sched_step tc (Conf, SMain)).
+  destruct (full_plan_nss tc) as [HP _]. fold c in HP.
+  assert (Hconf : forall l r, c = l ++ r -> nss_from [] (filter observable (map fst l)) = true).
+  { intros l r E. rewrite observable_main.
+    - apply (nss_prefix _ (map fst (r ++ schedule tc))). rewrite <- map_app, app_assoc, <- E. exact HP.
+    - intros it Hin. apply (conf_main tc). fold c. rewrite E. apply in_or_app. left. exact Hin. }
+  rewrite full_execute_refines_spec. unfold spec_full. fold c.
+  destruct (ffail c) as [f0|] eqn:E0.
+  { cbn [fst]. destruct (tuf_prefix c) as (r & Er). apply (Hconf _ r Er). }
+  pose proof (partial_nss tc E0) as Hp. fold c in Hp.
+  destruct (tc_status tc); [| cbn [fst]; apply (Hconf c []); rewrite app_nil_r; reflexivity |];
+    destruct (spec_partial tc) as [t pr]; cbn [fst] in *; exact Hp.
+Qed.
+
 (** * [P_C01], clause by clause *)
 Definition is_cleanup0 (e : event) : bool := match e with EInstr Cleanup SMain 0 _ => true | _ => false end.
 Definition first_fail_of (l : list event) : option failure :=
@@ -369,7 +559,7 @@ Lemma P_C01_alt tc o :
   (let tr := o_trace o in
    let non_cleanup := filter (fun e => negb (is_cleanup_main e)) tr in
    let cleanup_evs := filter is_cleanup_main tr in
-   sorted_validation_first false tr && all_before_ok tc non_cleanup && all_before_ok tc cleanup_evs &&
+   sorted_validation_first false tr && no_step_skipped tr && all_before_ok tc non_cleanup && all_before_ok tc cleanup_evs &&
    Nat.eqb (length (filter is_cleanup0 tr))
            (if existsb is_sandbox tr && negb (match tc_cleanup tc with [] => true | _ => false end) then 1 else 0) &&
    Bool.eqb (o_has_sds o) (existsb is_sandbox tr) &&
@@ -395,14 +585,13 @@ Proof.
   rewrite cleanup0_later. reflexivity.
 Qed.
 
-Lemma phase_eqb_refl p : phase_eqb p p = true. Proof. destruct p; reflexivity. Qed.
-Lemma stepk_eqb_refl k : stepk_eqb k k = true. Proof. destruct k; reflexivity. Qed.
 Lemma full_status_eqb_refl s : full_status_eqb s s = true. Proof. destruct s; reflexivity. Qed.
 
 Theorem P_C01_holds_on_model : forall tc, P_C01 tc (obs_of_model tc) = true.
 Proof.
   intros tc.
   pose proof (full_trace_validation_first tc) as Hval.
+  pose proof (model_no_step_skipped tc) as Hnss.
   destruct (model_shape tc) as (main & cl & Htr & Hw & Hm & Hsb & Hsds & Hpv & Hres).
   rewrite P_C01_alt. unfold obs_of_model. destruct (full_execute tc) as [mt mr]. cbn [fst snd] in *.
   cbn zeta. cbn [o_trace o_has_sds].
@@ -431,7 +620,7 @@ Proof.
     assert (E : existsb is_sandbox B = false).
     { clear -HB'. induction HB' as [|e l [_ He] _ IH]; cbn; [reflexivity|]. rewrite He. exact IH. }
     rewrite E. apply orb_false_r. }
-  rewrite Hnc, Hcm, HsbAB, Hval. cbn [andb].
+  rewrite Hnc, Hcm, HsbAB, Hval, Hnss. cbn [andb].
   (* halts at the first failure *)
   assert (H2 : all_before_ok tc A = true) by (apply abo_tuf, Hw).
   assert (H3 : all_before_ok tc B = true) by (apply abo_tuf, HclW).
@@ -487,8 +676,6 @@ Lemma event_eqb_refl e : event_eqb e e = true.
 Proof.
   destruct e as [p k i [pv|]| |pv]; cbn; rewrite ?phase_eqb_refl, ?stepk_eqb_refl, ?Nat.eqb_refl, ?prev_eqb_refl; reflexivity.
 Qed.
-Lemma phase_eqb_eq a b : phase_eqb a b = true -> a = b. Proof. destruct a, b; cbn; congruence. Qed.
-Lemma stepk_eqb_eq a b : stepk_eqb a b = true -> a = b. Proof. destruct a, b; cbn; congruence. Qed.
 Lemma prev_eqb_eq a b : prev_eqb a b = true -> a = b. Proof. destruct a, b; cbn; congruence. Qed.
 Lemma full_status_eqb_eq a b : full_status_eqb a b = true -> a = b. Proof. destruct a, b; cbn; congruence. Qed.
 Lemma event_eqb_eq a b : event_eqb a b = true <-> a = b.
@@ -557,4 +744,21 @@ Example P_C01_rejects_perturbations :
   P_C01 tc0 (C01Obs (EInstr Setup SMain 0 None :: o_trace o) (o_status o) (o_failing o) (o_has_sds o) (o_has_atc o)) = false /\
   (* has_sds disagrees with the sandbox *)
   P_C01 tc0 (C01Obs (o_trace o) (o_status o) (o_failing o) false (o_has_atc o)) = false.
+Proof. vm_compute. repeat split. Qed.
+
+(** the clause [no_step_skipped] is what rejects an execution in which post-setup validation of the
+    [assert] instructions was skipped (everything else unchanged), or act/prepare ran before
+    act/validate-exe-input *)
+Example P_C01_rejects_skipped_steps :
+  let o := obs_of_model tc0 in
+  let without_assert_post := filter (fun e => match e with EInstr Assert SValPost _ _ => false | _ => true end) (o_trace o) in
+  let swapped := map (fun e => match e with
+                               | EInstr Act SPrepare i p => EInstr Act SValExeInput i p
+                               | EInstr Act SValExeInput i p => EInstr Act SPrepare i p
+                               | _ => e end) (o_trace o) in
+  no_step_skipped (o_trace o) = true /\
+  length without_assert_post = 36 /\ no_step_skipped without_assert_post = false /\
+  P_C01 tc0 (C01Obs without_assert_post (o_status o) (o_failing o) (o_has_sds o) (o_has_atc o)) = false /\
+  sorted_validation_first false without_assert_post = true /\
+  no_step_skipped swapped = false.
 Proof. vm_compute. repeat split. Qed.
